@@ -44,11 +44,27 @@ def _run_tee(case, sync):
     items = [v for _, v in mkscript(case["srcs"][0]["script"])]
     out = {c: [] for c in range(case["n"])}
     ends = {}
+    fetched_after = []      # items fetched from the source after every single advance (laziness, C05)
+
+    class Counting:
+        def __init__(self, xs):
+            self.it, self.n = iter(xs), 0
+
+        def __iter__(self):
+            return self
+
+        def __next__(self):
+            v = next(self.it)
+            self.n += 1
+            return v
     if sync:
-        kids = list(_it.tee(iter(items), case["n"]))
+        cnt = Counting(items)
+        kids = list(_it.tee(cnt, case["n"]))
+        fetched = lambda: cnt.n                                   # noqa: E731
     else:
-        src, _ = make_source(case["srcs"][0]["kind"], [("item", v) for v in items], 0, [])
+        src, st = make_source(case["srcs"][0]["kind"], [("item", v) for v in items], 0, [])
         kids = list(asyncstdlib.tee(src, case["n"]))
+        fetched = lambda: min(st.pulls, len(items))               # noqa: E731
     closed = set()
     for step in case["pattern"]:
         if step[0] == "close":
@@ -73,7 +89,11 @@ def _run_tee(case, sync):
                 else:
                     ends[c] = "exhausted" if isinstance(res.exc, StopAsyncIteration) else ["raised", exc_name(res.exc)]
                     break
-    return {"out": [out[c] for c in range(case["n"])], "ends": [ends.get(c) for c in range(case["n"])]}
+            fetched_after.append(fetched())
+    res = {"out": [out[c] for c in range(case["n"])], "ends": [ends.get(c) for c in range(case["n"])]}
+    if case["srcs"][0]["kind"] != "list":        # pulls from a real list are not observable
+        res["fetched_after"] = fetched_after
+    return res
 
 
 # ---- heapq's binary heap: Machines/Heap.lean vs the real `heapq` module (edge B) -------------------------------------
@@ -198,8 +218,9 @@ def judge(case, obs, model):
             return [Issue("B", {"first_diff_at_op": k, "heapq": obs["heapq"], "model": model})]
         return []
     if case.get("family") == "tee":
-        if obs["tee_async"] != obs["tee_sync"]:
-            issues.append(Issue("oracle", {"asyncstdlib": obs["tee_async"], "itertools": obs["tee_sync"]}, "items-differ:tee"))
+        a, b = obs["tee_async"], obs["tee_sync"]
+        if (a["out"], a["ends"]) != (b["out"], b["ends"]):
+            issues.append(Issue("oracle", {"asyncstdlib": a, "itertools": b}, "items-differ:tee"))
         return issues
     a, s = obs["async"], obs["sync"]
     if yields(a["vis"]) != yields(s["vis"]):
